@@ -14,8 +14,10 @@ Jobs
         production's `callable` is swapped (in this process, never in /repo) for a recorder.
         This isolates SYNTAX: duplicate names, unresolved references ... cannot end the parse.
   {"mode": "text", "text": str}
-        the real Lexer of /repo tokenises the text (-> token types, or a lexer error), then
-        the same recording parse as above on these types ("syntax" part), and — independently —
+        the real Lexer of /repo tokenises the text as written ("raw" token types), then the
+        REAL Parser.parse_string path runs on the text with recorder actions ("syntax" part: token
+        types as fetched by ply, i.e. of the text as parse_string hands it to the driver, outcome,
+        reductions), and — independently —
         the unmodified Parser.parse_string of a fresh Parser whose productions' callables (the
         bound p_ methods) are wrapped to record the production number first and then run the
         real action, until the parse ends or an action raises ("real" part).
@@ -192,6 +194,8 @@ def real_parse(text):
         P.parse_string(text, filepath="")
         return {"out": "ok", "reds": log}
     except GrammarError as e:
+        if type(e) is not GrammarError:          # subclasses are raised by semantic actions
+            return {"out": "action", "reds": log, "exc": type(e).__name__}
         return {"out": "grammar", "reds": log, "exc": "GrammarError", "line": getattr(e, "lineno", None),
                 "tok": getattr(e, "token", None)}
     except LexerError as e:
@@ -202,13 +206,74 @@ def real_parse(text):
         return {"out": "crash", "reds": log, "exc": type(e).__name__, "msg": str(e)[:200]}
 
 
+def syn_parse_text(text):
+    """the REAL text path: Parser.parse_string (whatever it does to the text before handing it to
+    ply, e.g. terminating the last line) -> real Lexer -> real LRParser; only the actions of this
+    Parser instance are recorders.  Token types are recorded as ply fetches them; after a syntax
+    error the rest of the text is drained through the same lexer so that the full token list of
+    the text AS PARSED is known."""
+    import ply.lex as plylex
+    _, Parser = _parser_cls()
+    P = Parser()
+    lr = P.parser
+    log = []
+    for p in lr.productions:
+        if p.number == 0:
+            continue
+
+        def mk(n):
+            def rec(pslice):
+                log.append(n)
+            return rec
+        p.callable = mk(p.number)
+
+    def err(tok):
+        raise _SynErr(tok)
+    lr.errorfunc = err
+    lx = P.lexer.lexer
+    plylex.lexer = lx               # Parser.parse passes no lexer: ply takes the module global
+    types = []
+    cls_token = type(lx).token
+
+    def token():
+        t = cls_token(lx)
+        if t is not None:
+            types.append(t.type)
+        return t
+    lx.token = token
+    lexerr = None
+    try:
+        P.parse_string(text, filepath="")
+        syn = {"out": "accept", "reds": list(log)}
+    except _SynErr as e:
+        if e.tok is None:
+            syn = {"out": "syntax", "reds": list(log), "idx": len(types), "tok": "$end"}
+        else:
+            syn = {"out": "syntax", "reds": list(log), "idx": len(types) - 1, "tok": e.tok.type}
+            try:
+                while token() is not None:
+                    pass
+            except BaseException as e2:
+                lexerr = type(e2).__name__
+    except BaseException as e:
+        from bitproto.errors import LexerError
+        if isinstance(e, LexerError):
+            lexerr = type(e).__name__
+            syn = None
+        else:
+            syn = {"out": "crash", "reds": list(log), "exc": type(e).__name__, "msg": str(e)[:200]}
+    return types, lexerr, syn
+
+
 def one(job):
     if job["mode"] == "types":
-        return {"types": job["types"], "syn": syn_parse(job["types"])}
+        return {"types": job["types"], "raw": job["types"], "ends_nl": True, "syn": syn_parse(job["types"])}
     text = job["text"]
-    types, lexerr = lex_types(text)
-    res = {"types": types, "lexerr": lexerr}
-    res["syn"] = syn_parse(types)
+    raw, rawerr = lex_types(text)            # the text as written, before parse_string touches it
+    types, lexerr, syn = syn_parse_text(text)
+    if syn is None:                          # lexer error inside the parse: compare on the lexed prefix
+        syn = syn_parse(types)
+    res = {"types": types, "raw": raw, "ends_nl": text.endswith("\n"), "lexerr": lexerr or rawerr, "syn": syn}
     if job.get("real", True):
         res["real"] = real_parse(text)
     return res
